@@ -1,0 +1,39 @@
+//go:build verif
+
+package lut
+
+// Contracts for the verification machinery in /verif (vcgo). Comment-only.
+// The curve argument is an uninterpreted pure function; each table entry is the curve
+// sampled at i/N (decode) or the quantised curve value at i/N (encode).
+
+//@ func Build8BitToLinear
+//@   pure
+//@   modular
+//@   loop 1 invariant [C01] range: -1 <= rangeindex && rangeindex < 256
+//@   loop 1 invariant [C01] filled: forall k int :: 0 <= k && k <= rangeindex ==> same(from8BitLUT[k], linearise(float32(k)/255))
+//@   loop 1 decreases 256 - rangeindex
+//@   ensures [C01,C14] table: forall k int :: 0 <= k && k < 256 ==> same(result[k], linearise(float32(k)/255))
+
+//@ func Build16BitToLinear
+//@   pure
+//@   modular
+//@   loop 1 invariant [C01] range: -1 <= rangeindex && rangeindex < 65536
+//@   loop 1 invariant [C01] filled: forall k int :: 0 <= k && k <= rangeindex ==> same(from16BitLUT[k], linearise(float32(k)/65535))
+//@   loop 1 decreases 65536 - rangeindex
+//@   ensures [C01,C14] table: forall k int :: 0 <= k && k < 65536 ==> same(result[k], linearise(float32(k)/65535))
+
+//@ func BuildLinearTo8Bit
+//@   pure
+//@   modular
+//@   loop 1 invariant [C02] range: -1 <= rangeindex && rangeindex < 512
+//@   loop 1 invariant [C02] filled: forall k int :: 0 <= k && k <= rangeindex ==> to8BitLUT[k] == linear.NormalisedTo8Bit(encode(float32(k)/511))
+//@   loop 1 decreases 512 - rangeindex
+//@   ensures [C02] table: forall k int :: 0 <= k && k < 512 ==> result[k] == linear.NormalisedTo8Bit(encode(float32(k)/511))
+
+//@ func BuildLinearTo16Bit
+//@   pure
+//@   modular
+//@   loop 1 invariant [C02] range: -1 <= rangeindex && rangeindex < 65536
+//@   loop 1 invariant [C02] filled: forall k int :: 0 <= k && k <= rangeindex ==> to16BitLUT[k] == linear.NormalisedTo16Bit(encode(float32(k)/65535))
+//@   loop 1 decreases 65536 - rangeindex
+//@   ensures [C02] table: forall k int :: 0 <= k && k < 65536 ==> result[k] == linear.NormalisedTo16Bit(encode(float32(k)/65535))
